@@ -84,6 +84,7 @@ class WindEval(Evaluator):
         hooks = {
             "_align_points_by_normal": lambda ev, n: SV("tuple", items=[cyc.aligned_points_arg(ev, n), SV("rot")]),
             "np.atleast_2d": lambda ev, n: ev.ev(n.args[0]),
+            "len": lambda ev, n: SV("scal", [Poly.atom("LEN")]),
             "np.asarray": lambda ev, n: ev.ev(n.args[0]),
             "np.hstack": self._first_of_display, "np.column_stack": self._first_of_display, "np.concatenate": self._first_of_display,
             "np.sign": self._sign, "np.multiply": lambda ev, n: ev.binop(ast.Mult(), ev.ev(n.args[0]), ev.ev(n.args[1])),
@@ -262,6 +263,9 @@ def winding_parity(fn_node, points_name="points", index=None, cls=None):
                 _cache[name] = ok
             return _cache[name]
         ev.align_like = _align_like
+        fn_info = cls.lookup("is_inside")
+        if fn_info is not None and hasattr(fn_info, "module"):
+            ev.functions = {k_: v_.node for k_, v_ in fn_info.module.functions.items() if k_ not in ("_align_points_by_normal",)}
     body = [s for s in fn_node.body if not (isinstance(s, ast.Expr) and isinstance(s.value, ast.Constant))]
     # the returned expression `w != 0` / `w > 0` ...: judge the summed quantity w
     ret_node = None
